@@ -344,7 +344,7 @@ def c01_5(ctx, ss):
             multi["cc"].append(st)
     # 3 alias replacement over all tables
     for st in stmts:
-        if _self_attr_store(st, "_parsed_decays") and "DecayModelAliasReplacement" in txt(st.value):
+        if _self_attr_store(st, "_parsed_decays") and "DecayModelAliasReplacement" in flow.text(st.value):    # (expanded: the transformer may be built once before)
             steps["alias"] = st
             v = st.value
             ok = isinstance(v, ast.ListComp) and len(v.generators) == 1 and not v.generators[0].ifs \
@@ -360,7 +360,7 @@ def c01_5(ctx, ss):
                               f"alias replacement does not cover every table: `{txt(v)[:140]}`")
     # 4 parameter replacement loop
     for st in stmts:
-        if isinstance(st, ast.For) and any("DecayModelParamValueReplacement" in txt(c.func) for c in pf.calls_in(st)):
+        if isinstance(st, ast.For) and any("DecayModelParamValueReplacement" in flow.text(c.func) for c in pf.calls_in(st)):
             steps["param"] = st
             multi["param"].append(st)
             okit = flow.text(st.iter) in ("self._parsed_decays",) or txt(st.iter) == "self._parsed_decays"
@@ -535,9 +535,25 @@ def c01_6(ctx, ss):
                 (ctx.holds if okd else ctx.violation)("C01.6", ckey(ff, None, "duplicates-computed"), where(ff, d.stmt),
                                                       "the duplicated names are computed whenever the number of tables exceeds the number of distinct mothers" if okd
                                                       else f"the duplicated names are only computed under {c2}")
-        # the pending collection must be able to hold a name several times
+        # comprehension form of the schedule: [name for name in <duplicated names> for _ in range(<names>.count(name) - 1)]
         init = [d for d in flow.defs if d.name == lst and d.kind == "assign"]
-        multi = bool(init) and all(isinstance(d.value, ast.List) or (isinstance(d.value, ast.Call) and txt(d.value.func) in ("list", "Counter", "collections.Counter")) for d in init)
+        if not ext and len(init) == 1 and isinstance(init[0].value, ast.ListComp) and len(init[0].value.generators) == 2:
+            lc = init[0].value
+            g1, g2 = lc.generators
+            names_src = "self.list_decay_mother_names()"
+            src = txt(flow.expand(g1.iter))
+            want_src = {canon(f"__phi__(set(), {{__elem__({names_src}) for n in {names_src} if {names_src}.count(__elem__({names_src})) > 1}})"),
+                        canon(f"{{__elem__({names_src}) for n in {names_src} if {names_src}.count(__elem__({names_src})) > 1}}"), f"set({names_src})", names_src}
+            r_ = g2.iter
+            okr = isinstance(r_, ast.Call) and txt(r_.func) == "range" and len(r_.args) == 1 and isinstance(r_.args[0], ast.BinOp) and isinstance(r_.args[0].op, ast.Sub) \
+                and isinstance(r_.args[0].right, ast.Constant) and r_.args[0].right.value == 1 \
+                and txt(flow.expand(r_.args[0].left, keep={txt(g1.target)})) == f"{names_src}.count({txt(g1.target)})"
+            okc = okr and not g2.ifs and isinstance(lc.elt, ast.Name) and lc.elt.id == txt(g1.target)
+            okall = src in want_src and not g1.ifs
+            (ctx.holds if okall else ctx.violation)("C01.6", ckey(ff, None, "all-duplicates"), where(ff, init[0].stmt),
+                                                    "removals are scheduled for every mother that occurs more than once" if okall
+                                                    else f"removals are scheduled over `{src[:120]}`: some repeated mothers keep all their blocks")
+        multi = bool(init) and all(isinstance(d.value, ast.List) or (isinstance(d.value, ast.Call) and txt(d.value.func) in ("list", "Counter", "collections.Counter")) or isinstance(d.value, ast.ListComp) for d in init)
         if okc and multi:
             ctx.holds("C01.6", ckey(ff, None, "count-1"), where(ff, ff.node), "count-1 removals are scheduled per repeated mother (in a list, which keeps multiplicities)", 2)
         else:
